@@ -152,9 +152,9 @@ def runs(ctx, deep=False):
         for st in steps:
             if st[1] == 'enter' and ctx.rng.random() < 0.5: st[2] = 'ser'
         tcases.append({'threads': n, 'steps': steps, 'faults': {}, 'name': 'ser%d' % k})
-    touts = cc.run_driver({'mode': 'threads', 'cases': tcases}, timeout=900)
+    touts = cc.run_driver({'mode': 'threads', 'cases': tcases})
     rcases = rmw_cases(ctx, deep)
-    routs = cc.run_driver({'mode': 'threads', 'cases': rcases}, timeout=900)
+    routs = cc.run_driver({'mode': 'threads', 'cases': rcases})
     # single sessions with locking reads under faults (the session-level theorem C35_serializable_begin)
     base = []
     for shape in ('ser', 'imm', 'opt'):
